@@ -73,6 +73,8 @@ package broker
 //@ func (s *memorySession) lookupSubscription(topic string) (sub *packet.Subscription)
 //@   requires [session] sess_ok(s)
 //@   ensures [first-match] sub == ptr(lastfirst, *packet.Subscription)
+//@   ensures [matching-filter] sub != nil ==> matches(s.subscriptions, topic)
+//@   ensures [nil-only-if-none] sub == nil ==> !matches(s.subscriptions, topic)
 //@   ensures [tree] sess_ok(s) && held == old(held)
 //@   modifies held, lastfirst, anystop, seen
 //
